@@ -67,7 +67,7 @@ func init() {
 	register("C11", func(e *Env) {
 		renderPrelude()
 		e.perShard = 30
-		e.rep.Rule = "a recursive data graph (struct Node{Name; A, B []Node; P *Node; M map[string]Node}, depth 2, every Name spelling its own Go path) rooted at the context variable x (value) and px (pointer), plus decoy context variables named like the fields (A, B, P, M, Name); every path of <= 2 steps (exhaustive) and random paths of 3-4 steps over {.A[0] .A[1] .A[2](out of range) .A[i](variable index) .B[0] .P .M[\"k\"] .M[\"zz\"](missing) .M[km](variable key) .Zzz(unknown)} ending in .Name, used in an output tag, through let, and as a loop iterable; reference = the same navigation done in Go; oracle: a completed navigation must print exactly the spelled path, an impossible one must print nothing or fail - never another element's name; plus method calls on values/pointers/indexed elements of the T0/T1 family; plus slices / arrays / maps of pointers with nil elements (Go-only); distinct by path"
+		e.rep.Rule = "a recursive data graph (struct Node{Name; A, B []Node; P *Node; M map[string]Node}, depth 2, every Name spelling its own Go path) rooted at the context variable x (value) and px (pointer), plus decoy context variables named like the fields (A, B, P, M, Name); every path of <= 2 steps (exhaustive) and random paths of 3-4 steps over {.A[0] .A[1] .A[2](out of range) .A[i](variable index) .B[0] .P .M[\"k\"] .M[\"zz\"](missing) .M[km](variable key) .Zzz(unknown)} ending in .Name, used in an output tag, through let, and as a loop iterable; reference = the same navigation done in Go; oracle: a completed navigation must print exactly the spelled path, an impossible one must print nothing or fail - never another element's name; plus method calls on values/pointers/indexed elements of the T0/T1 family; plus slices / arrays / maps of pointers with nil elements, and navigations after a tolerated failing navigation from the same root (Go-only); distinct by path"
 		root := mkNode("x", 2)
 		binds := []Bind{{"x", root}, {"px", vPtr(mkNode("px", 2))}, {"i0", vInt(0)}, {"i1", vInt(1)}, {"km", vStr("k")},
 			{"A", vSlice("Node", mkNode("DECOY.A[0]", 1), mkNode("DECOY.A[1]", 1))}, {"B", vSlice("Node", mkNode("DECOY.B[0]", 1))}, {"P", vPtr(mkNode("DECOY.P", 1))},
@@ -173,6 +173,31 @@ func init() {
 					key = "c11-method-after-index"
 				}
 				e.Violate(key, fmt.Sprintf("%s: Go yields %q, the template rendered %q (%s %s)", t.src, t.want, o.Out, o.Class, firstLine(o.Msg)), map[string]interface{}{"case": c.Tmpl, "observed": o})
+			}
+		}
+		// a navigation that fails in a tolerated position (unknown index variable deeper in the path,
+		// member of a nil entry, inside if / ! / == / ||) must leave later navigations from the
+		// same root untouched
+		{
+			extra := map[string]interface{}{
+				"ns":   []T1{{Name: "ns[0]", Ins: []T0{{"ns[0].Ins[0]"}}, Tags: []string{"t"}}, {Name: "ns[1]", Ins: []T0{{"ns[1].Ins[0]"}}}},
+				"data": map[string]interface{}{"a": nil, "b": T0{"data[b]"}},
+				"pm2":  map[string]*T0{"n": nil, "b": {"pm2[b]"}},
+			}
+			for _, t := range [][2]string{
+				{`<%= if (ns[0].Ins[nosuch]) { %>y<% } else { %>n<% } %>|<%= ns[1].Name %>|<%= ns[0].Ins[0].Name %>`, "n|ns[1]|ns[0].Ins[0]"},
+				{`<%= !ns[0].Tags[nosuch] %>|<%= ns[1].Ins[0].Name %>|<%= ns[0].Name %>`, "true|ns[1].Ins[0]|ns[0]"},
+				{`<%= (ns[0].Ins[nosuch]) == nil %>|<%= ns[0].Tags[0] %>|<%= ns[1].Name %>`, "true|t|ns[1]"},
+				{`<%= if (data["a"].Name) { %>y<% } else { %>n<% } %>|<%= data["b"].Name %>`, "n|data[b]"},
+				{`<%= for (i) in [0, 1] { %><%= if (ns[i].Ins[nosuch]) { %>y<% } %><%= ns[i].Name %>,<% } %><%= ns[1].Name %>`, "ns[0],ns[1],ns[1]"},
+			} {
+				o := runRenderExtra(RCase{Tmpl: t[0], Binds: binds}, extra)
+				e.rep.Evaluations++
+				e.Count("after-tolerated-failure")
+				e.Distinct(t[0])
+				if o.Class != "OK" || o.Out != template.HTMLEscapeString(t[1]) {
+					e.Violate(c11key(t[0], o, o.Out), fmt.Sprintf("%s: Go navigation yields %q, the template rendered %q (%s %s)", t[0], t[1], o.Out, o.Class, firstLine(o.Msg)), map[string]interface{}{"tmpl": t[0], "observed": o})
+				}
 			}
 		}
 		// containers of pointers with nil elements and maps with nil pointer values (Go-only data:
